@@ -63,6 +63,14 @@ CLAIMS = {
          "jets at 0 are (1,0,-1/3,0), (0,1/3,0,-1/5), (0,0,2/15,0); the exp_m1 / ln_1p towers hold at 0. Finiteness (no NaN from 0*inf or 0/0) cannot be expressed over the reals, where 1/0 and ln 0 are "
          "totalised: it is decided by executing the generated model on primitive binary64 floats inside Coq at every enumerated special point and its float neighbours, bit for bit against the implementation, "
          "and by an oracle requiring every part finite and equal to the mathematical jet (this is enumeration of a finite set of points with random derivative parts, not a theorem about all parts)."),
+ 'C14': ("Coq proof on a hand model of bessel.rs whose tables, constants and literals are regenerated from the source: Horner semantics, every branch over Dual returns value and Coquelicot derivative of the real function the same code computes, denominators positive, branch selection by the real part, parity of every part; model executed in Coq bit for bit against the implementation; accuracy against 60-digit references (tested); three fixes recorded",
+         "Hand model coq/ND/Hand/Bessel.v (control structure by hand; all 13 coefficient tables, the scalar constants and the numeric literals of each function come from gen/Gen_Bessel.v, rewritten from src/bessel.rs on every run). "
+         "Theorems (Props/C14.v, 13): polevl / p1evl are the Horner evaluations of the polynomials with the listed coefficients; for any differentiable curve, the small-argument, rational and asymptotic branches of bessel_j0, the rational "
+         "branch of bessel_j1 and the series branch of bessel_j2, evaluated over Dual, carry the value and the derivative (is_derive) of the real function the same code computes -- whatever the coefficients are; the six denominators are "
+         "positive for every z >= 0 (so no side conditions remain); which branch runs is decided by the real part; J0(-X) = J0(X), J1(-X) = -J1(X), J2(-X) = J2(X) in every part. The model is executed in Coq on binary64 (libm from the "
+         "oracle table) on every Copy type incl. nestings to fourth order and must equal the implementation bit for bit. NOT proved: closeness of the approximating functions to the true J0, J1, J2 (a statement about 104 floating-point "
+         "coefficients) and the asymptotic branch of J1 as a derivative statement; decided on the implementation against mpmath J_n^(k) at 60 digits with absolute accuracy 16 u 32^k (1+|x|/8) for the k-th derivative, at 0, denormals, "
+         "both sides of every switch point, zeros of J0/J1/J2, up to |x| = 60, both signs, with parity checked exactly. Higher-order parts follow from C03/C04 applied to the same composition of generic operations (not restated here)."),
  'C15': ("Coq proof: on each branch the regenerated coefficients are a Coquelicot tower of the closed form / of the series polynomial, every type's parts are Faa di Bruno of it, branch chosen by |re| < eps; bit-exact correspondence; one open known finding",
          "Theorems (Props/C15.v, 35): the generated sph_j0/1/2 coincide, as dual numbers, with the closed forms sin x/x, (sin x - x cos x)/x^2, ((3-x^2) sin x - 3x cos x)/x^3 wherever |re| >= eps and with the series "
          "polynomials 1 - x^2/6, (x - x^3/10)/3, x^2/15 wherever |re| < eps; the third-order coefficients of the closed forms are a Coquelicot derivative tower of those functions at every x <> 0 and those of the series of "
